@@ -176,7 +176,7 @@ class SysSim(Engine):
 
     def _gen_check(self, rng, world):
         if rng.chance(0.6):
-            return {"op": "check", "what": "mass_balance", "raise": rng.chance(0.5), "tol": rng.choice([None, None, 0.5, 10.0])}
+            return {"op": "check", "what": "mass_balance", "raise": rng.chance(0.5), "tol": rng.choice([None, None, None, 0.5, 10.0, 0.0])}
         names = []
         if rng.chance(0.4) and world["flows"]:
             f = rng.choice(world["flows"])
@@ -616,6 +616,9 @@ class SysSim(Engine):
         else:
             worst = max(imb.values(), default=0.0)
             gray = [v for v in imb.values() if tol / 2 < v < 2 * tol]
+            if tol == 0.0:
+                # an explicit zero tolerance: imbalances that are mere float noise (far below the smallest booked mass) are not judged
+                gray = [v for v in imb.values() if 0.0 < v < 0.1]
             if gray:
                 self._probe(st, "verdict_in_gray_zone_skipped")
                 return
